@@ -265,6 +265,145 @@ func extract(repo string) int {
 		})
 	}
 	fmt.Println("tools", ntools)
+	return extractEtcd(repo, fset, methods)
+}
+
+// extractEtcd: what each Store method AS IMPLEMENTED BY EtcdStore does to etcd and to its cached in-memory
+// snapshot.  Per method of *EtcdStore (pkg/metadata, non-test files), through every *EtcdStore method and package
+// function it reaches: (a) etcd client operations = calls `<x>.<Op>(…)` with Op one of the clientv3 KV / Lease /
+// Watcher / Maintenance operation names where <x> mentions the client (`s.client`, a local named *cli* / *kv*,
+// `clientv3`), incl. the Op constructors `clientv3.OpPut/OpDelete/…`; (b) `s.metadata.<Store method>` calls.
+// Line: `etcdmethod <Method> ops=Get,Txn,OpDelete inner=Metadata`.
+func extractEtcd(repo string, fset *token.FileSet, methods []string) int {
+	pkgs, err := parser.ParseDir(fset, filepath.Join(repo, "pkg/metadata"), func(fi os.FileInfo) bool {
+		return !strings.HasSuffix(fi.Name(), "_test.go") && !strings.HasPrefix(fi.Name(), "zz_verif")
+	}, 0)
+	if err != nil {
+		fmt.Println("error", err)
+		return 1
+	}
+	etcdOps := map[string]bool{"Get": true, "Put": true, "Delete": true, "Txn": true, "Do": true, "Compact": true, "Watch": true,
+		"Grant": true, "Revoke": true, "KeepAlive": true, "KeepAliveOnce": true, "Defragment": true,
+		"OpGet": true, "OpPut": true, "OpDelete": true, "OpTxn": true}
+	isStore := map[string]bool{}
+	for _, m := range methods {
+		isStore[m] = true
+	}
+	type ffacts struct {
+		ops, inner, edges map[string]bool
+	}
+	fns := map[string]*ffacts{} // "(EtcdStore).Name" for methods, "Name" for package functions
+	decls := map[string]*ast.FuncDecl{}
+	recvName := func(fd *ast.FuncDecl) string {
+		if fd.Recv == nil || len(fd.Recv.List) == 0 {
+			return ""
+		}
+		t := fd.Recv.List[0].Type
+		if st, ok := t.(*ast.StarExpr); ok {
+			t = st.X
+		}
+		if id, ok := t.(*ast.Ident); ok {
+			return id.Name
+		}
+		return "?"
+	}
+	for _, p := range pkgs {
+		for _, f := range p.Files {
+			for _, d := range f.Decls {
+				fd, ok := d.(*ast.FuncDecl)
+				if !ok || fd.Body == nil {
+					continue
+				}
+				switch r := recvName(fd); r {
+				case "":
+					decls[fd.Name.Name] = fd
+				case "EtcdStore":
+					decls["(EtcdStore)."+fd.Name.Name] = fd
+				}
+			}
+		}
+	}
+	exprText := func(e ast.Expr) string {
+		var b strings.Builder
+		ast.Inspect(e, func(n ast.Node) bool {
+			if id, ok := n.(*ast.Ident); ok {
+				b.WriteString(strings.ToLower(id.Name))
+				b.WriteString(".")
+			}
+			return true
+		})
+		return b.String()
+	}
+	for name, fd := range decls {
+		fa := &ffacts{ops: map[string]bool{}, inner: map[string]bool{}, edges: map[string]bool{}}
+		fns[name] = fa
+		ast.Inspect(fd.Body, func(n ast.Node) bool {
+			switch x := n.(type) {
+			case *ast.Ident:
+				if _, ok := decls[x.Name]; ok {
+					fa.edges[x.Name] = true
+				}
+			case *ast.SelectorExpr:
+				if _, ok := decls["(EtcdStore)."+x.Sel.Name]; ok {
+					// method value or call on anything; receivers are not typed here, so over-approximate:
+					// a selector naming an EtcdStore method is an edge unless it goes through s.metadata
+					if !strings.Contains(exprText(x.X), "metadata.") {
+						fa.edges["(EtcdStore)."+x.Sel.Name] = true
+					}
+				}
+				if isStore[x.Sel.Name] && strings.HasSuffix(exprText(x.X), "metadata.") {
+					fa.inner[x.Sel.Name] = true
+				}
+				if etcdOps[x.Sel.Name] {
+					t := exprText(x.X)
+					if strings.Contains(t, "client") || strings.Contains(t, "cli.") || strings.Contains(t, "kv.") ||
+						strings.Contains(t, "txn") || strings.Contains(t, "lease") || strings.Contains(t, "etcd") {
+						fa.ops[x.Sel.Name] = true
+					}
+				}
+			}
+			return true
+		})
+	}
+	n := 0
+	for _, m := range methods {
+		root := "(EtcdStore)." + m
+		if fns[root] == nil {
+			fmt.Printf("etcdmethod %s ops=?missing inner=\n", m)
+			n++
+			continue
+		}
+		seen := map[string]bool{}
+		ops, inner := map[string]bool{}, map[string]bool{}
+		var walk func(string)
+		walk = func(k string) {
+			if seen[k] || fns[k] == nil {
+				return
+			}
+			seen[k] = true
+			for o := range fns[k].ops {
+				ops[o] = true
+			}
+			for o := range fns[k].inner {
+				inner[o] = true
+			}
+			for e := range fns[k].edges {
+				walk(e)
+			}
+		}
+		walk(root)
+		keys := func(mm map[string]bool) string {
+			var xs []string
+			for k := range mm {
+				xs = append(xs, k)
+			}
+			sort.Strings(xs)
+			return strings.Join(xs, ",")
+		}
+		fmt.Printf("etcdmethod %s ops=%s inner=%s\n", m, keys(ops), keys(inner))
+		n++
+	}
+	fmt.Println("etcdmethods", n)
 	return 0
 }
 
@@ -340,7 +479,10 @@ func etcdDump() string {
 	}
 	var b strings.Builder
 	for _, kv := range resp.Kvs {
-		fmt.Fprintf(&b, "%q=%s\n", kv.Key, hex.EncodeToString(kv.Value))
+		// keys, values AND revisions: a rewrite with identical bytes (read-repair, "touch") or a delete + re-put
+		// still bumps mod_revision / create_revision / version, and watchers see it
+		fmt.Fprintf(&b, "%q=%s@mod=%d,create=%d,ver=%d,lease=%d\n", kv.Key, hex.EncodeToString(kv.Value),
+			kv.ModRevision, kv.CreateRevision, kv.Version, kv.Lease)
 	}
 	return b.String()
 }
@@ -431,6 +573,33 @@ func build(brokers int, itopics []topicSpec, withEtcd bool) (*env, error) {
 	}
 	return e, nil
 }
+
+// committedAt: the committed_at text of an old commit (row of the age table, same order as AGE_ROWS in checks/C40.py):
+// 1 h, 6 d 23 h, 7 d + 1 s, 1 year, 30 d in a non-UTC zone, just under 7 d, zero time, unparsable, empty.
+func committedAt(row int) string {
+	now := time.Now().UTC()
+	switch ((row % 9) + 9) % 9 {
+	case 0:
+		return now.Add(-time.Hour).Format(time.RFC3339Nano)
+	case 1:
+		return now.Add(-(6*24 + 23) * time.Hour).Format(time.RFC3339Nano)
+	case 2:
+		return now.Add(-7*24*time.Hour - time.Second).Format(time.RFC3339Nano)
+	case 3:
+		return now.Add(-365 * 24 * time.Hour).Format(time.RFC3339Nano)
+	case 4:
+		return now.Add(-30 * 24 * time.Hour).In(time.FixedZone("", 2*3600)).Format(time.RFC3339Nano)
+	case 5:
+		return now.Add(-7*24*time.Hour + 30*time.Second).Format(time.RFC3339Nano)
+	case 6:
+		return time.Time{}.Format(time.RFC3339Nano)
+	case 7:
+		return "yesterday"
+	}
+	return ""
+}
+
+func mustJSON(s string) string { b, _ := json.Marshal(s); return string(b) }
 
 var layoutTable = [][]int32{{2, 0, 1}, {1, 2, 0}, {2, 1, 0}, {1, 0}, {2, 2, 0}, {0, 2, 1, 1}}
 
@@ -752,6 +921,21 @@ func main() {
 				for _, s := range e.stores() {
 					off, _ := strconv.ParseInt(f[4], 10, 64)
 					errs = append(errs, s.CommitConsumerOffset(ctx, "g"+f[1], "t"+f[2], int32(atoi(f[3])), off, md))
+				}
+				return e.okErr(errs...)
+			case f[0] == "oldcommit" && len(f) == 6:
+				// oldcommit <g> <t> <p> <offset> <age row>: a commit made LONG AGO.  In-memory store: an ordinary commit (it keeps
+				// no timestamp).  Etcd store: the record CommitConsumerOffset would have written then, i.e. the same JSON with an
+				// old / zero / unparsable committed_at, put with the raw client under the store's own key.
+				off, _ := strconv.ParseInt(f[4], 10, 64)
+				errs := []error{e.mem.CommitConsumerOffset(ctx, "g"+f[1], "t"+f[2], int32(atoi(f[3])), off, "")}
+				if e.etcd != nil {
+					// field order of consumerOffsetRecord: offset, metadata, committed_at
+					raw := fmt.Sprintf(`{"offset":%d,"metadata":"","committed_at":%s}`, off, mustJSON(committedAt(atoi(f[5]))))
+					pctx, cancel := context.WithTimeout(ctx, 5*time.Second)
+					_, err := etcdClient.Put(pctx, fmt.Sprintf("/kafscale/consumers/g%s/offsets/t%s/%d", f[1], f[2], atoi(f[3])), raw)
+					cancel()
+					errs = append(errs, err)
 				}
 				return e.okErr(errs...)
 			case f[0] == "group" && len(f) == 5:
